@@ -7,3 +7,26 @@ pub mod jar;
 pub mod mapmodel;
 pub mod props;
 pub mod sandbox;
+
+// ---------------------------------------------------------------------------------------------
+// Two source files of the binary crate `feather-build-rs` are compiled into the harness unchanged.
+// They refer to these items of their crate root.
+
+pub struct Official;
+pub struct Intermediary;
+pub struct Named;
+
+pub mod download {
+	pub mod versions_manifest {
+		#[derive(Debug, Clone, PartialEq, Hash, Eq)]
+		pub struct MinecraftVersion(pub String);
+	}
+}
+
+#[allow(dead_code, unused_imports, unused_variables, clippy::all)]
+#[path = "/repo/src/specialized_methods/mod.rs"]
+pub mod specialized_methods;
+
+#[allow(dead_code, unused_imports, unused_variables, clippy::all)]
+#[path = "/repo/src/version_graph.rs"]
+pub mod version_graph;
